@@ -44,7 +44,8 @@ def generate(tier, seed):
         for c in ge:
             ectx = [e["ctx"] for e in c["edges"]["A"] if e["to"] == "B"][0]
             r = c["roots"][0]
-            ks = [("e", ectx, r["site"]), ("r", r["ctx"], r["site"]), ("s", c["serde"]["D"], ectx)]
+            shape = tuple(sorted((n, tuple(sorted(e["to"] for e in c["edges"][n]))) for n in c["edges"]))
+            ks = [("e", ectx, r["site"]), ("r", r["ctx"], r["site"]), ("s", c["serde"]["D"], ectx), ("sh", shape, ectx)]
             if any(k not in seen for k in ks):
                 seen.update(ks)
                 pick.append(c)
